@@ -29,3 +29,28 @@ func TestC17(t *testing.T) {
 		st.Note(c.Hash(), ev, s.NonTrivial(&c, ev), func() string { return c.String() })
 	})
 }
+
+// TestC17Fault: the single-fault enumeration of C07 under drawn callback
+// subsets; a faulted execution that fails with callbacks installed but passes
+// without them violates C17.
+func TestC17Fault(t *testing.T) {
+	s := Specs["C17"]
+	st := NewStats("C17", "fault phase: C07's single-fault enumeration (every StoreFile call of a generated history fails once, torn writes, retry/abandon variants) run with a drawn non-empty callback subset installed; an execution that violates the fault oracle with the callbacks but not without them is a violation. Non-trivial as in C07.", s.Assumptions)
+	st.Extra["counts_units"] = "evaluations are faulted executions; -rapid.checks counts histories"
+	defer func() {
+		if p := outPath(); p != "" {
+			st.Write(p)
+		}
+	}()
+	gen := GenCase(profFault)
+	rapid.Check(t, func(rt *rapid.T) {
+		c := gen.Draw(rt, "case")
+		c.Cfg.Mem = false
+		c.Cfg.Profile = "C17-fault"
+		c.Cfg.Callbacks = rapid.IntRange(1, 255).Draw(rt, "callbacks") &^ CbRefCount
+		if c.Cfg.Callbacks == 0 {
+			c.Cfg.Callbacks = CbAfterRead
+		}
+		faultEnumerate(rt, st, "C17", c, runC17Fault)
+	})
+}
